@@ -127,6 +127,37 @@ def run(prop, muts, verbose=False):
     return out
 
 
+def parse_header(path, key):
+    with open(path) as f:
+        for l in f:
+            if l.startswith("# %s:" % key):
+                return [x.strip() for x in l.split(":", 1)[1].split(",") if x.strip()]
+    return []
+
+
+def run_benign(prop, verbose=False):
+    """benign/<name>.patch: behaviour-preserving (or correct) edits on which the checks listed in
+    the `# silent:` header must stay silent - the no-false-alarm side of the self-test."""
+    d = os.path.join(VERIF, "benign")
+    out = []
+    if not os.path.isdir(d):
+        return out
+    for f in sorted(os.listdir(d)):
+        if not f.endswith(".patch"):
+            continue
+        path = os.path.join(d, f)
+        if prop not in parse_header(path, "silent"):
+            continue
+        r = run_patch(prop, path, verbose, expect=["\0never"], label="benign/" + f)
+        r["kind"] = "benign"
+        if r["status"] == "MISSED":
+            r["status"] = "silent"
+        elif r["status"] in ("caught", "caught-by-other-rule"):
+            r["status"] = "FALSE-ALARM"
+        out.append(r)
+    return out
+
+
 def seeded_for(prop):
     """seeded/<id>/meta.json entries for a property: (dir, meta)"""
     d = os.path.join(VERIF, "seeded")
@@ -174,6 +205,10 @@ if __name__ == "__main__":
         res = run(a[1], a[2:], verbose="-v" in a)
         print(json.dumps(res, indent=1))
         sys.exit(0 if all(r["status"] == "caught" for r in res) else 1)
+    elif a[0] == "benign":
+        res = run_benign(a[1], verbose="-v" in a)
+        print(json.dumps(res, indent=1))
+        sys.exit(0 if all(r["status"] == "silent" for r in res) else 1)
     elif a[0] == "seeded":
         res = run_seeded(a[1], verbose="-v" in a)
         print(json.dumps(res, indent=1))
